@@ -33,6 +33,29 @@ theorem run_noCrash {S σ : Type} (step : S → Step S) (h : HandlerFn σ) :
       · simp [Outcome.noCrash]
       · exact Outcome.noCrash_map (ih _ _)
 
+/-- The generic loop either returns a list or runs out of fuel. -/
+theorem run_ok_or_fuel {S σ : Type} (step : S → Step S) (h : HandlerFn σ) :
+    ∀ (f : Nat) (s : S) (st : σ), (∃ xs, run step h f s st = .ok xs) ∨ run step h f s st = .outOfFuel := by
+  intro f
+  induction f with
+  | zero => intro s st; right; rfl
+  | succ f ih =>
+    intro s st
+    simp only [run]
+    cases step s with
+    | done => exact Or.inl ⟨[], rfl⟩
+    | skip s' => exact ih s' st
+    | visit idx dist k =>
+      simp only
+      cases hk : (h st idx dist).1.kind <;> simp only
+      · rcases ih (k true) (h st idx dist).2 with ⟨xs, hx⟩ | hx
+        · exact Or.inl ⟨_, by rw [hx]; rfl⟩
+        · exact Or.inr (by rw [hx]; rfl)
+      · exact Or.inl ⟨_, rfl⟩
+      · rcases ih (k false) (h st idx dist).2 with ⟨xs, hx⟩ | hx
+        · exact Or.inl ⟨_, by rw [hx]; rfl⟩
+        · exact Or.inr (by rw [hx]; rfl)
+
 theorem runWith_noCrash {S : Type} (step : S → Step S) (base : Int → Nat → Control)
     (limit offset fuel : Nat) (s : S) : (runWith false step base limit offset fuel s).noCrash := by
   unfold runWith
